@@ -14,8 +14,12 @@ use crate::run;
 const POOL: &[&str] = &[
     "en", "en-US", "en-GB", "fr", "fr-FR", "fr-CA", "de", "de-CH", "zh", "zh-Hant", "zh-Hant-TW", "zh-Hans-CN", "ar", "ar-EG", "he", "fa", "ur", "pt",
     "pt-BR", "sr-Latn", "sr-Cyrl", "ca-ES-valencia", "es-419", "ja", "ko", "en-AU", "de-AT", "it", "it-CH", "nl", "nl-BE",
+    // same language, different direction depending on the script
+    "pa", "pa-Arab", "az", "az-Arab", "ar-Latn", "sd", "sd-Deva", "uz", "uz-Arab", "ug", "ku", "ku-Arab", "he-Latn", "ks", "ps",
 ];
-const RTL: &[&str] = &["ar", "ar-EG", "he", "fa", "ur"];
+/// locales whose text runs right to left (CLDR): explicit Arab / Hebr script, or a language whose
+/// likely script is one of them
+const RTL: &[&str] = &["ar", "ar-EG", "he", "fa", "ur", "pa-Arab", "az-Arab", "sd", "uz-Arab", "ug", "ku-Arab", "ks", "ps"];
 
 struct Case {
     default: String,
